@@ -131,6 +131,10 @@ func rbFrameInputs() []rbInput {
 		wsf("heartbeat-ping", 1, "2"),
 		wsf("heartbeat-pong", 1, "3"),
 		wsf("probe", 1, "2probe"),
+		wsf("v3-binary-ping-probe", 2, "\x02probe"),
+		wsf("v3-base64-ping-probe", 1, "b2cHJvYmU="),
+		wsf("v3-binary-message", 2, "\x04hi"),
+		wsf("v3-binary-upgrade", 2, "\x05"),
 		wsf("upgrade", 1, "5"),
 		wsf("open", 1, `0{"sid":"x"}`),
 		wsf("close-packet", 1, "1"),
@@ -270,7 +274,7 @@ func rbOpen(x *vsched.Exec, w *World, kind string) *rbVictim {
 			return nil
 		}
 		v.rec = w.Socks[len(w.Socks)-1]
-	case "upgrade-v4-eio3", "upgrade-v3-eio4", "upgrade-v4":
+	case "upgrade-v4-eio3", "upgrade-v3-eio4", "upgrade-v4", "upgrade-v3":
 		// a polling session and a websocket candidate whose revision parameter may differ
 		sessEIO, candEIO := 4, 4
 		switch kind {
@@ -278,6 +282,8 @@ func rbOpen(x *vsched.Exec, w *World, kind string) *rbVictim {
 			candEIO = 3
 		case "upgrade-v3-eio4":
 			sessEIO = 3
+		case "upgrade-v3":
+			sessEIO, candEIO = 3, 3
 		}
 		if !openPoll(sessEIO, false) {
 			return nil
@@ -390,6 +396,23 @@ func rbBody(kind string, script []rbInput, offenders map[string]bool) vsched.Bod
 				}
 			}
 		}
+		// timers: every open session holds one pending heartbeat timer; an upgrade attempt still in
+		// progress holds two more (timeout, check interval); anything beyond that was left behind
+		// (counted 31s later: a polling transport closed without a pending poll keeps a 30s close timer)
+		x.Run(x.Now() + 31*time.Second)
+		timers := 0
+		for _, t := range x.Live() {
+			if strings.Contains(t.Name, "utils/timer.go") {
+				timers++
+			}
+		}
+		allowedTimers := liveCount(w)
+		if v.rec != nil && v.rec.Count("close") == 0 && v.rec.Sock.Upgrading() {
+			allowedTimers += 2
+		}
+		if timers > allowedTimers {
+			x.Fail("timer-left-behind%s: %d timer goroutines alive, %d sessions open, upgrading=%v (%s)", clsOf("timer-left-behind"), timers, liveCount(w), v.rec != nil && v.rec.Sock.Upgrading(), id)
+		}
 		// only the offending session may close; the canary keeps working
 		for _, s := range w.Socks {
 			if s != v.rec && s.Count("close") != 0 {
@@ -441,6 +464,7 @@ func init() {
 		{"websocket3", rbFrameInputs},
 		{"webtransport", rbFrameInputs},
 		{"upgrade-v4", rbFrameInputs},
+		{"upgrade-v3", rbFrameInputs},
 		{"upgrade-v4-eio3", rbFrameInputs},
 		{"upgrade-v3-eio4", rbFrameInputs},
 	}
